@@ -40,7 +40,10 @@ func (table *CollisionTable) compareAndSet(it *HintItem, reason string) {
 	items, ok := table.Items[it.Keyhash]
 	if ok {
 		old, ok := items[it.Key]
-		if !ok || reason == "gc" || it.Pos.CmpKey() >= old.Pos.CmpKey() {
+		// a GC relocation carries the version of the record it moved (to a smaller position): it
+		// replaces that record's entry, never the entry of a newer write acknowledged meanwhile
+		if !ok || (reason == "gc" && abs(it.Ver) >= abs(old.Ver)) ||
+			(reason != "gc" && it.Pos.CmpKey() >= old.Pos.CmpKey()) {
 			items[it.Key] = *it
 		}
 
